@@ -9,7 +9,7 @@ META = {
         'quick': 'all well-formed skeletons of <=5 items over {el, el*R, el/, >, +, ^, (, ), )*R}, R in 1..3 symbolic '
                  '(one count for elements, one for groups), selfClosingStyle html/xhtml/xml, format off and on; '
                  'deep chains: 6 elements joined by every sequence of {>, +, ^, ^^, ^^^, ^^^^} (plain, inside a group, inside a repeated group below a parent); '
-                 'implicit names: 17 parent contexts x 12 templates (below a parent, and at the top level after a sibling/group/climb)',
+                 'implicit names: 17 parent contexts x 14 templates (html and xml self-closing style; nameless elements with text and children included) (below a parent, and at the top level after a sibling/group/climb)',
         'thorough': 'the same for <=7 items; chains of 7 elements',
     },
     'outside_claim': ['a child operator applied to a group `(..)>x` (not defined by the property)',
@@ -249,13 +249,13 @@ TOP_TEMPLATES = ['P+[a]', 'P>ex^[a]', '(P>[a]*901)+.c', 'P>[a]^^.c', '(P+em)+[a]
 PARENTS = [('ul', 'li'), ('ol', 'li'), ('table', 'tr'), ('tbody', 'tr'), ('thead', 'tr'), ('tfoot', 'tr'),
            ('tr', 'td'), ('select', 'option'), ('optgroup', 'option'), ('p', 'span'), ('em', 'span'),
            ('a', 'span'), ('strong', 'span'), ('section', 'div'), ('div', 'div'), ('x1', 'div'), (None, 'div')]
-IMPL_TEMPLATES = ['P>[a]', 'P>.c', 'P>(.c+[a])*902', 'P*901>[a]', 'P>[a]*901', 'P>#i+.c']
+IMPL_TEMPLATES = ['P>[a]', 'P>.c', 'P>(.c+[a])*902', 'P*901>[a]', 'P>[a]*901', 'P>#i+.c', 'P>.c{t}>ex', 'P>[a]{t}>ex+ey']
 
 
-def mk_implicit(ti):
+def mk_implicit(ti, style='html'):
     from vf.pipe import expand_injected, make_config, set_repeat
     tpl = (IMPL_TEMPLATES + TOP_TEMPLATES)[ti]
-    user = {'options': {'output.format': False}}
+    user = {'options': {'output.format': False, 'output.selfClosingStyle': style}}
 
     def expected(parent, child, r, wrong=False):
         def el(name, attrs, inner=''):
@@ -275,6 +275,11 @@ def mk_implicit(ti):
             body, pr = el(child, a) * r, 1
         elif tpl == 'P>#i+.c':
             body, pr = el(child, i) + el(child, c), 1
+        elif tpl == 'P>.c{t}>ex':
+            # a nameless element with text keeps its children inside (text precedes them)
+            body, pr = el(child, c, 't' + el('ex', '')), 1
+        elif tpl == 'P>[a]{t}>ex+ey':
+            body, pr = el(child, a, 't' + el('ex', '') + el('ey', '')), 1
         else:
             # top-level templates: the nameless element is a `div` whatever came before it
             top = 'divx' if wrong else 'div'
@@ -324,7 +329,7 @@ def mk_implicit(ti):
     wit = [{'p': 0, 'r': 1 if '90' not in tpl else 2}, {'p': 9, 'r': 1 if '90' not in tpl else 2}]
     return {'fn': harness(False), 'twin': harness(True), 'witnesses': wit,
             'assumptions': ['template %s; parent chosen by a solver-decided index over the documented parent table '
-                            '(+ inline, block, unknown, top level); repeat count r in 1..3 symbolic' % tpl],
+                            '(+ inline, block, unknown, top level); repeat count r in 1..3 symbolic; selfClosingStyle=%s' % (tpl, style)],
             'functions': ['emmet.markup.implicit_tag.resolve_implicit_tag', 'ELEMENT_MAP', 'output_stream.is_inline']}
 
 
@@ -412,6 +417,10 @@ def jobs(tier):
                            dict(S=S, wrap=wrap, first_op=fo, fmt=(wrap == 2)), shape='H', bound='%d elements, every operator sequence' % S,
                            budget=900 if q else 3000, weight=300))
     for ti in range(len(IMPL_TEMPLATES) + len(TOP_TEMPLATES)):
-        out.append(Job('C01-b/implicit/%s' % (IMPL_TEMPLATES + TOP_TEMPLATES)[ti], 'vf.props.c01:mk_implicit', dict(ti=ti), shape='H',
-                       bound='17 parent contexts, r<=3', budget=600, weight=50))
+        for style in ('html', 'xml', 'xhtml'):
+            if style == 'xhtml' and q:
+                continue
+            out.append(Job('C01-b/implicit/%s%s' % ((IMPL_TEMPLATES + TOP_TEMPLATES)[ti], '' if style == 'html' else ',' + style),
+                           'vf.props.c01:mk_implicit', dict(ti=ti, style=style), shape='H',
+                           bound='17 parent contexts, r<=3', budget=600, weight=50))
     return out
